@@ -57,6 +57,8 @@ def sub_spec(spec, axis, idx):
 def build_operand(rec, axis):
     """materialise one operand recipe {spec, route, hist} as a real Table"""
     spec, route, hist = rec["spec"], rec["route"], rec["hist"]
+    if len(spec["obs"]) * len(spec["samp"]) == 0 and route in ("dense", "sort_roundtrip", "transpose2", "lil"):
+        route = "csr"   # empty dense input takes a constructor short-cut that loses the shape (see check_case)
     oth = other_of(axis)
     key = "obs" if axis == "observation" else "samp"
     okey = "samp" if axis == "observation" else "obs"
